@@ -124,3 +124,31 @@ Proof.
   apply (promise_c rs_sharp (scorer_mw_Q rs_sharp) w_sharp_lower CatOther); [discriminate|exact E|].
   intros H. vm_compute in H. discriminate.
 Qed.
+
+(* ---- the promise, literally about the guesser model of C02 / C04 *)
+From Pcfg Require Import ProbAlg Next NextSpec NextProofs QProb Expand ScorerGuesser.
+From Coq Require Import Sorting.Permutation.
+
+Theorem promise_preterminal_c : forall rs m s cat p, s <> [] ->
+  score_c (parse_s m) rs s = Some (cat, p) -> ~ (p == 0)%Q ->
+  exists it : item QProb, In it (all_preterminals (guesser_view rs)) /\
+                          In s (denote c_upper (segs_of rs it)) /\ (iprob it == p)%Q.
+Proof.
+  intros rs m s cat p Hne Hs Hp. apply generates_preterminal. exact (promise_c rs m s cat p Hne Hs Hp).
+Qed.
+
+(* ... and by C02 that pre-terminal is emitted by the run of the guesser, for
+   every well-formed view and every admissible queue *)
+Theorem promise_emitted_c : forall rs m s cat p, s <> [] ->
+  score_c (parse_s m) rs s = Some (cat, p) -> ~ (p == 0)%Q ->
+  wf (guesser_view rs) -> forall pop, pop_ok_okb pop ->
+  exists it : item QProb,
+    In it (emitted (run pop (guesser_view rs) (total (guesser_view rs)) (start (guesser_view rs)))) /\
+    In s (denote c_upper (segs_of rs it)) /\ (iprob it == p)%Q.
+Proof.
+  intros rs m s cat p Hne Hs Hp Hwf pop Hpop.
+  destruct (promise_preterminal_c rs m s cat p Hne Hs Hp) as (it & Hin & Hd & Hq).
+  exists it. split; [|split; assumption].
+  destruct (C02_exactly_once_okb (guesser_view rs) Hwf pop Hpop) as (Hperm & _).
+  eapply Permutation_in; [apply Permutation_sym; exact Hperm|exact Hin].
+Qed.
